@@ -12,3 +12,6 @@ def run(ctx):
         'Display: token element type writing one byte; fixed 16-byte buffer; unwind 18 covers core::fmt loops; the element type\'s own formatting is used verbatim (one byte here)',
     ]
     core.run_kani_set(ctx, ['c19_'], bound='symbolic element relation (2-bit domain); Display unwind 18', harness_timeout=900)
+    if ctx.tier == 'thorough':
+        # thorough tier: the same harnesses decided a second time by an independent SAT solver (kissat instead of CaDiCaL)
+        core.run_kani_set(ctx, ['c19_'], bound='symbolic element relation (2-bit domain); Display unwind 18', harness_timeout=2700, solver='kissat')
